@@ -261,6 +261,8 @@ def add_bundles(rng, K, uni, pkgs):
             uni[mangled] = [(xv, [[K.DerivedFrom, x.encode()]], inner)]
             reqs.append((mangled, xv, []))
             r = rng.random()
+            if any(q[0] == x for q in reqs):
+                continue            # the version already requires x: one entry per name
             if r < 0.6:
                 reqs.append((x, rng.choice([xv, "*", gen_range(rng, pkgs[x])]), dep_type(K, "bundle", None)))
             elif r < 0.8:
@@ -365,7 +367,13 @@ def run(ctx):
                          "%d roots; first: %s" % (ctx.dist.get("root:timeout", 0), timeouts[0][:300]))
 
 
-def run_batch(ctx, rng, K, classes, n_uni, n_mut, timeouts, base):
+def oracle_only(ctx):
+    """the model or the proofs do not build: still look for a failing universe with the direct oracle"""
+    K = load_keys(ctx)
+    run_batch(ctx, ctx.rng, K, known_classes(), ctx.scale(400, 5000), 0, [], 0, correspond=False)
+
+
+def run_batch(ctx, rng, K, classes, n_uni, n_mut, timeouts, base, correspond=True):
     unis, cases, meta = [], [], []
     for ui in range(n_uni):
         with_derived = rng.random() < 0.15
@@ -422,6 +430,8 @@ def run_batch(ctx, rng, K, classes, n_uni, n_mut, timeouts, base):
         table_cases.append(case_text)
         obs1.append(obs)
 
+    if not correspond:
+        return
     # correspondence on the recorded tables
     same = lambda x, y: x == y or x == TIMEOUT     # a loaded machine may expire the 400 ms budget
     impl2, model2 = ctx.correspond("npm", table_cases, label="npm:recorded", compare=same)
